@@ -18,27 +18,30 @@ type mapException struct {
 }
 
 var mapExceptions = map[string]mapException{
-	"driver.installConfigFlags:range bools": {why: "the collected names are used only when exactly one flag is set (len(set) == 1, a single element has no order); with two or more the only effect is the order of names inside the 'conflicting options' error text, which is not report output"},
-	"driver.outputFormat:range bcmd":        {why: "zero or one flag set: the result is that flag whatever the order; two or more set: the second one met returns the same constant error whatever the order", verify: verifyConstErrorReturns},
-	"driver.outputFormat:range acmd":        {why: "same argument as for bcmd (result fixed when at most one is set, constant error otherwise)", verify: verifyConstErrorReturns},
+	"driver.installConfigFlags:range map[string]*bool": {why: "the collected names are used only when exactly one flag is set (len(set) == 1, a single element has no order); with two or more the only effect is the order of names inside the 'conflicting options' error text, which is not report output"},
+	"driver.outputFormat:range map[string]*bool":       {why: "zero or one flag set: the result is that flag whatever the order; two or more set: the second one met returns the same constant error whatever the order", verify: verifyConstErrorReturns},
+	"driver.outputFormat:range map[string]*string":     {why: "same argument as for bcmd (result fixed when at most one is set, constant error otherwise)", verify: verifyConstErrorReturns},
 	"driver.completeConfig:range configFieldMap": {why: "the only caller, matchVariableOrCommand, uses the result only when the combined match list has exactly one element", verify: func(c *Check, s *mapSite) string {
 		return onlyCalledFrom(c, "internal/driver", "completeConfig", "matchVariableOrCommand")
 	}},
 	"driver.matchVariableOrCommand:range pprofCommands": {why: "the match list is used only under len(matches) == 1", verify: func(c *Check, s *mapSite) string {
-		return usedOnlyUnderLenOne(c, s, "matches")
+		if len(s.appends) == 0 {
+			return "the loop no longer collects matches"
+		}
+		return usedOnlyUnderLenOne(c, s, s.appends[0])
 	}},
-	"graph.*builder.addNodelets:range tm": {why: "the per-label tag lists are handed only to numericNodelets → collapsedTags, which sorts them (SortTags) before any other use", verify: func(c *Check, s *mapSite) string {
-		return calleeSortsFirst(c, "internal/graph", "(*builder).collapsedTags", "ts")
+	"graph.*builder.addNodelets:range graph.TagMap": {why: "the per-label tag lists are handed only to numericNodelets → collapsedTags, which sorts them (SortTags) before any other use", verify: func(c *Check, s *mapSite) string {
+		return calleeSortsFirst(c, "internal/graph", "(*builder).collapsedTags", 0)
 	}},
-	"graph.newTree:range parentNodeMap": {why: "Graph.Nodes is unordered by design; every consumer sorts it or only aggregates it (verified separately as C08-R2 consumers)"},
-	"graph.NodeMap.nodes:range nm":      {why: "Graph.Nodes is unordered by design; every consumer sorts it or only aggregates it (verified separately as C08-R2 consumers)"},
-	"graph.*Graph.TrimTree:range cur.In": {why: "the loop picks the single parent: len(cur.In) == 1 is asserted (panic otherwise) immediately before the loop", verify: func(c *Check, s *mapSite) string {
-		return precededByLenAssert(c, s, "cur.In")
+	"graph.newTree:range map[*graph.Node]graph.NodeMap": {why: "Graph.Nodes is unordered by design; every consumer sorts it or only aggregates it (verified separately as C08-R2 consumers)"},
+	"graph.NodeMap.nodes:range graph.NodeMap":           {why: "Graph.Nodes is unordered by design; every consumer sorts it or only aggregates it (verified separately as C08-R2 consumers)"},
+	"graph.*Graph.TrimTree:range graph.Node.In": {why: "the loop picks the single parent: len(cur.In) == 1 is asserted (panic otherwise) immediately before the loop", verify: func(c *Check, s *mapSite) string {
+		return precededByLenAssert(c, s, s.expr)
 	}},
-	"graph.*Graph.String:range n.In":   {why: "debugging dump (Graph.String), not part of any report format; not reachable from driver.PProf", verify: verifyGraphStringUnreachable},
-	"graph.*Graph.String:range n.Out":  {why: "debugging dump (Graph.String), not part of any report format; not reachable from driver.PProf", verify: verifyGraphStringUnreachable},
-	"graph.isRedundantEdge:range n.In": {why: "breadth-first reachability: the set of visited nodes and the boolean result are the same for every visiting order (the function returns a constant as soon as the source is met and false when the closure is exhausted)"},
-	"profile.cpuProfile:range addr1":   {why: "at most one address can reach the majority threshold count >= n - n/32 (two keys would need 2(n - n/32) <= n), so the element that triggers the break is unique"},
+	"graph.*Graph.String:range graph.Node.In":   {why: "debugging dump (Graph.String), not part of any report format; not reachable from driver.PProf", verify: verifyGraphStringUnreachable},
+	"graph.*Graph.String:range graph.Node.Out":  {why: "debugging dump (Graph.String), not part of any report format; not reachable from driver.PProf", verify: verifyGraphStringUnreachable},
+	"graph.isRedundantEdge:range graph.Node.In": {why: "breadth-first reachability: the set of visited nodes and the boolean result are the same for every visiting order (the function returns a constant as soon as the source is met and false when the closure is exhausted)"},
+	"profile.cpuProfile:range map[uint64]int":   {why: "at most one address can reach the majority threshold count >= n - n/32 (two keys would need 2(n - n/32) <= n), so the element that triggers the break is unique"},
 }
 
 func runC08(c *Check) {
@@ -94,7 +97,11 @@ func (c *Check) mapRules() {
 		case len(problems) == 0:
 			c.ok("C08-R2", key, pos, desc, "E1: "+strings.Join(sorted, "; "))
 		default:
-			if ex, ok := mapExceptions[key]; ok {
+			ex, ok := mapExceptions[key]
+			if !ok {
+				ex, ok = inheritedMapException(p, s)
+			}
+			if ok {
 				broken := ""
 				if ex.verify != nil {
 					broken = ex.verify(c, s)
@@ -235,7 +242,7 @@ func usedOnlyUnderLenOne(c *Check, s *mapSite, v string) string {
 }
 
 // calleeSortsFirst: in fn, the first statement that mentions parameter param sorts it.
-func calleeSortsFirst(c *Check, rel, fn, param string) string {
+func calleeSortsFirst(c *Check, rel, fn string, paramIdx int) string {
 	f := c.P.Func(rel, fn)
 	if f == nil {
 		return fn + " not found"
@@ -244,16 +251,18 @@ func calleeSortsFirst(c *Check, rel, fn, param string) string {
 	if !ok {
 		return fn + " has no syntax"
 	}
-	found := false
+	param := ""
+	k := 0
 	for _, fl := range fd.Type.Params.List {
 		for _, n := range fl.Names {
-			if n.Name == param {
-				found = true
+			if k == paramIdx {
+				param = n.Name
 			}
+			k++
 		}
 	}
-	if !found {
-		return fn + " has no parameter " + param
+	if param == "" {
+		return fmt.Sprintf("%s has no parameter #%d", fn, paramIdx)
 	}
 	how, ok, used := firstUseIsSort(c.P, fd.Body.List, param)
 	if !used || !ok {
@@ -466,4 +475,45 @@ func sortAfterIn(b *ssa.BasicBlock, after ssa.Instruction) bool {
 
 func blockReachesPlain(from, to *ssa.BasicBlock) bool {
 	return blockReaches(from, to, func(ssa.Value) int { return 0 })
+}
+
+// inheritedMapException: a loop that was moved into a helper keeps the reviewed exception
+// of the function (same package) that calls the helper, when the ranged map is the same.
+func inheritedMapException(p *Program, s *mapSite) (mapException, bool) {
+	dot := strings.LastIndex(s.fn, ".")
+	if dot < 0 {
+		return mapException{}, false
+	}
+	pkgPrefix, helper := s.fn[:strings.Index(s.fn, ".")+1], s.fn[dot+1:]
+	for key, ex := range mapExceptions {
+		parts := strings.SplitN(key, ":range ", 2)
+		if len(parts) != 2 || parts[1] != s.stableExpr() || !strings.HasPrefix(parts[0], pkgPrefix) || parts[0] == s.fn {
+			continue
+		}
+		// does the excepted function call the helper?
+		owner := parts[0][strings.LastIndex(parts[0], ".")+1:]
+		calls := false
+		for _, file := range s.pkg.Syntax {
+			for _, d := range file.Decls {
+				fd, ok := d.(*ast.FuncDecl)
+				if !ok || fd.Name.Name != owner || fd.Body == nil {
+					continue
+				}
+				ast.Inspect(fd.Body, func(n ast.Node) bool {
+					if call, ok := n.(*ast.CallExpr); ok {
+						name := exprStr(p.Fset, call.Fun)
+						if name == helper || strings.HasSuffix(name, "."+helper) {
+							calls = true
+						}
+					}
+					return true
+				})
+			}
+		}
+		if calls {
+			ex.why += " [loop now in helper " + s.fn + "]"
+			return ex, true
+		}
+	}
+	return mapException{}, false
 }
